@@ -275,9 +275,28 @@ def run(repo, chk):
     pr = repo.func("opparse.Parser.process")
     fpp = facts_of(pr)
     ordv = (fpp.bound_to("self.order(left, right)") or ["order"])[0]
+    from ..cfg import CFG
+    from ..astq import literals as _lits
+    gpp = CFG(pr.node, lambda s_: isinstance(s_, (ast.Raise, ast.Assert)))
+    loop_heads = [n for n in gpp.nodes if n.kind == "test" and isinstance(n.stmt, ast.While)]
 
     def under(lit, *texts):
-        return all(any(t == x and lit in c for t, c, n in fpp.items) for x in texts)
+        """In the parser loop, once the test `lit` has been taken, every way to the next iteration runs each of the statements
+        `texts` (must-pass-through on the CFG: a tail shared by several branches counts for each of them)."""
+        tests = [n for n in gpp.nodes if n.kind == "test" and isinstance(n.stmt, ast.If) and _lits(n.stmt.test, True) == [lit]]
+        if len(tests) != 1 or not loop_heads:
+            return False
+        starts = [m for m, lab in tests[0].succ if lab == "t"]
+        for x in texts:
+            marks = [n for n in gpp.nodes if n.kind == "stmt" and n.stmt is not None and any(t == x and m is n.stmt for t, c, m in fpp.items)]
+            if not marks:
+                return False
+            for s0 in starts:
+                if s0 in marks:
+                    continue
+                if any(gpp.path_exists(s0, h, avoid=marks, labels=("n", "t", "f")) for h in loop_heads) or gpp.path_exists(s0, gpp.exit, avoid=marks, labels=("n", "t", "f")):
+                    return False
+        return True
     chk.ob("R15.3", "opparse.Parser.process:positive-opens", under(f"{ordv} > 0", "stack.append(current)", "right = _next()"),
            pr.where, "a positive order opens a new handle and advances")
     chk.ob("R15.3", "opparse.Parser.process:negative-closes", under(f"{ordv} < 0", "middle = self.finalize(current)", "current = stack.pop()"),
